@@ -5,8 +5,10 @@
    Everything is parametric in
      T  : tmpl   structural facts the scanner of tools/translators/gen_c18.py extracts from base.j2
      pw : Z -> option Z   `pick_width` of filter_numpy_scalar_type, translated from lang/py/__init__.py
-     q  : bool   quirk F-PY-ARRELEM: true = array elements are only converted by NumPy (shipped code),
-                 false = conformant (elements outside the DSDL range are rejected)
+     q  : bool   quirk F-PY-ARRELEM: true = array elements are only converted by NumPy (code before the fix),
+                 false = conformant / shape of the fix (integer elements outside the DSDL range are rejected on all three
+                 paths of assign_array, finite float16/32 elements beyond the largest finite value on the conversion path);
+                 Generated/Gen_PyObj.v says which one the template in /repo is (arrelem_quirk_gen)
    Python values are modelled by `pyval`; floats are binary64 bit patterns (a Python float).  *)
 From Coq Require Import List NArith ZArith Bool.
 Import ListNotations.
@@ -273,6 +275,26 @@ Definition elem_in_dsdl_range (e : etype) (x : pyval) : bool :=
 (* the trigger of F-PY-ARRELEM at element level: stored although outside the range of the element type *)
 Definition elem_trigger (e : etype) (x : pyval) : bool := negb (elem_in_dsdl_range e x).
 
+(* conformant variant, conversion path only: `np.asarray(src, float64)` must not hold a FINITE value beyond the largest
+   finite value of a float16/float32 element type (the conversion itself would silently turn it into infinity);
+   NaN, the infinities and None (NumPy: NaN) pass, exactly as in the scalar setter *)
+Definition float_leaf_ok (e : etype) (x : pyval) : bool :=
+  match e with
+  | EPrim (KF w) =>
+      if w <? t_float_check_below T then
+        match x with
+        | PNone => true
+        | _ => match py_float x with
+               | Ok f => f_in_range w f || negb (f_isfinite f)
+               | Raise _ => true          (* the conversion to the storage dtype has raised before *)
+               end
+        end
+      else true
+  | _ => true
+  end.
+Definition float_src_ok (e : etype) (y : pyval) : bool :=
+  q || match np_flat y with Ok sl => forallb (float_leaf_ok e) (snd sl) | Raise _ => true end.
+
 Definition cmp_len (c : cmpop) (n cap : nat) : bool :=
   match c with
   | CmpEq => Nat.eqb n cap
@@ -294,7 +316,9 @@ Definition assign_array (fixed : bool) (cap : nat) (strlike : bool) (e : etype) 
       if q || forallb (elem_in_dsdl_range e) l then Ok (PArr dt l) else Raise ValueError in
   let slow (y : pyval) : res pyval :=
       l <- np_array dt y ;;                                                (* np.array(src, dt).flatten() *)
-      if negb (t_len_slow T) || cmp_len cmp (length l) cap then chk l else Raise ValueError in
+      if negb (t_len_slow T) || cmp_len cmp (length l) cap
+      then (if float_src_ok e y then chk l else Raise ValueError)
+      else Raise ValueError in
   match x1 with
   | PBytes s =>
       if fast_bytes && (negb (t_len_bytes T) || cmp_len cmp (length s) cap)
